@@ -273,6 +273,15 @@ def list_builds(fnode, name: str, pm) -> Optional[List[ListBuild]]:
     return out
 
 
+def returned_list_build(ret: ast.Return) -> Optional[List[ListBuild]]:
+    """`return [E for t in IT]` / `return list(E for ...)` described like a named list"""
+    comp = _comp_of(ret.value)
+    if comp is None or len(comp.generators) != 1:
+        return None
+    gen = comp.generators[0]
+    return [ListBuild("<returned>", "comp", comp.elt, gen.target, gen.iter, [(c, True) for c in gen.ifs], ret, ret)]
+
+
 def loop_builds_fresh(g, builds: Sequence[ListBuild]) -> Optional[List[str]]:
     """For loop builds: every loop is entered with the list freshly emptied (its `x = []` dominates the loop and lies
     between any two fillings: neither the same loop in a later round of an outer loop nor another filling loop adds to
@@ -444,12 +453,12 @@ def exec_straight(stmts: Sequence[ast.stmt], env: dict, relevant: Set[str], unti
             try:
                 t = eval_arith(st.test, env, len_of)
             except NotEvaluable:
-                if _stored_names(st) & relevant:
-                    raise
-                # an arm that only leads to `until`: both arms are walked for the position of `until`
+                # only the path that leads to `until` matters: an undecidable test is followed into the arm holding it
                 for arm in (st.body, st.orelse):
                     if any(x is until for s2 in arm for x in ast.walk(s2)):
                         return exec_straight(arm, env, relevant, until, len_of)
+                if _stored_names(st) & relevant:
+                    raise
                 continue
             if exec_straight(st.body if t else st.orelse, env, relevant, until, len_of):
                 return True
@@ -569,4 +578,65 @@ def t_elif_chain_to_continues(first_test: str):
             return True
         return False
     t.__name__ = "t_elif_chain_to_continues"
+    return t
+
+
+def t_drop_continue(test_text: str):
+    """remove the trailing `continue` of the guard clause `if <test_text>: ...; continue` (breaking edit)"""
+    def t(fn):
+        for n in ast.walk(fn):
+            if isinstance(n, ast.If) and ast.unparse(n.test) == test_text and n.body and isinstance(n.body[-1], ast.Continue) and len(n.body) > 1:
+                n.body.pop()
+                return True
+        return False
+    t.__name__ = "t_drop_continue"
+    return t
+
+
+def t_early_return_to_else(test_contains: str):
+    """`if T: A; return` followed by REST (function level) -> `if T: A else: REST`"""
+    def t(fn):
+        for i, st in enumerate(fn.body):
+            if isinstance(st, ast.If) and not st.orelse and test_contains in ast.unparse(st.test) and st.body \
+                    and isinstance(st.body[-1], ast.Return) and st.body[-1].value is None and len(st.body) > 1 and fn.body[i + 1:]:
+                st.body.pop()
+                st.orelse = fn.body[i + 1:]
+                del fn.body[i + 1:]
+                return True
+        return False
+    t.__name__ = "t_early_return_to_else"
+    return t
+
+
+def t_chain_to_returns(first_test_contains: str):
+    """function-level `if a: A elif b: B elif c: C` being the LAST statement of the function ->
+    `if a: A; return` / `if b: B; return` / `if c: C`"""
+    def t(fn):
+        last = fn.body[-1] if fn.body else None
+        if not (isinstance(last, ast.If) and first_test_contains in ast.unparse(last.test)):
+            return False
+        out, cur = [], last
+        while True:
+            nxt = cur.orelse[0] if len(cur.orelse) == 1 and isinstance(cur.orelse[0], ast.If) else None
+            if nxt is None:
+                out.append(ast.If(test=cur.test, body=list(cur.body), orelse=[]))
+                out.extend(cur.orelse)
+                break
+            out.append(ast.If(test=cur.test, body=list(cur.body) + [ast.Return(value=None)], orelse=[]))
+            cur = nxt
+        fn.body[-1:] = out
+        return len(out) > 1
+    t.__name__ = "t_chain_to_returns"
+    return t
+
+
+def t_drop_return(test_contains: str):
+    """remove the trailing `return` of the guard clause whose test contains the text (breaking edit)"""
+    def t(fn):
+        for n in fn.body:
+            if isinstance(n, ast.If) and test_contains in ast.unparse(n.test) and len(n.body) > 1 and isinstance(n.body[-1], ast.Return):
+                n.body.pop()
+                return True
+        return False
+    t.__name__ = "t_drop_return"
     return t
